@@ -80,6 +80,7 @@ def oracle_c17(line, impl, model_kv, impl_kv=None, model=None):
             want = "v=" + ";".join(py_decode(t[1][16 * k:16 * k + 16]) for k in range(n // 8))
             if impl != want: return "to_insn_vec differs from the slots"
     elif t[0] == "bld":
+        if impl == "panic": return "the builder did not produce the 8-byte slot of the instruction the constructor call denotes (reading it panicked)"
         if f.get("b") != f.get("e"): return "builder bytes differ from the instruction encoder's"
         # the instruction a constructor denotes is fixed by its arguments (class | mode / source | size / operation, as the opcode constants of
         # ebpf.rs compose them): the model's builder is proved to emit the encoder's bytes for that instruction (C17_builder)
@@ -271,21 +272,21 @@ PROPS = {
         trusted=EXEC_TRUST,
     ),
     "C03": dict(
-        suites=["exec-engines", "x86step"], oracle=engine_oracle(["jit"]), level="proof", model_is_spec=True,
-        nontrivial=lambda line, impl: impl.startswith("ok"),
+        suites=["exec-engines", "x86step", "api"], oracle=engine_oracle(["jit"]), level="proof", model_is_spec=True,
+        nontrivial=lambda line, impl: impl.startswith("ok") or line.startswith("api "),
         rule="suite x86step (validation of the trusted machine model, not of rbpf: ~3,500 single instructions of every form the JIT emits - both widths, all registers, the three displacement encodings, boundary shift counts, arbitrary input flags - executed by the processor from a stub that installs and stores the whole register file, the condition flags and a scratch region, and by X86.step; all 16 registers, ZF/SF/CF/OF where the model defines them, memory and jump decisions compared) + suite exec-engines on the x86-64 JIT (generated code runs in forked children): a third of the C01 operation matrix (every opcode x register pairs x boundary operands, upper halves set before 32-bit "
              "operations and byte swaps), the memory-instruction matrix, call graphs, 12,000 random engine-safe programs on the four VM kinds with helpers, context probes, helper-contract programs, "
              "div/mod at instruction indexes 65534..131071. A case is compared only when the taint run of the model says it is inside the claim (no undefined register/stack byte, r1-r5 after a helper, "
              "or raw address reaches the result, a branch, a divisor or stored packet bytes) - the filtered fraction is in input_distribution. Oracle: same r0, packet and metadata bytes, helper log as the real "
-             "interpreter. Non-trivial: distinct program the interpreter ran to a value.",
+             "interpreter. Suite api: the compiled code that runs is the code of the program and helpers in force - histories of loads, helper (re-)registrations, compilations and executions on the four VM kinds against the state-machine model. Non-trivial: distinct program the interpreter ran to a value, distinct API history.",
         trusted=EXEC_TRUST + ["the processor decodes and executes the ~30 instruction forms the JIT emits as Model/X86.lean says (the machine model is run on the emitted bytes of every case and compared with the processor); System V calling convention"],
     ),
     "C04": dict(
-        suites=["exec-engines", "clifir"], oracle=engine_oracle(["clif"]), level="proof", model_is_spec=True,
-        nontrivial=lambda line, impl: impl.startswith("ok"),
+        suites=["exec-engines", "clifir", "api"], oracle=engine_oracle(["clif"]), level="proof", model_is_spec=True,
+        nontrivial=lambda line, impl: impl.startswith("ok") or line.startswith("api "),
         rule="suite exec-engines on Cranelift (feature `cranelift`, generated code runs in forked children): same cases as C03, incl. CFG shapes (dead code after exit/ja, back edges, back edge to instruction 0, blocks "
              "reached only by fall-through, jumps over wide loads), mod by zero and le16/32 with upper halves set, helper ids equal to local-call displacements. Local calls must be refused at compile time. "
-             "Compared only inside the claim (taint run). Non-trivial: distinct program the interpreter ran to a value."
+             "Compared only inside the claim (taint run). Suite api: the compiled code that runs is the code of the program and helpers in force (histories of loads, helper re-registrations, compilations, executions against the state-machine model). Non-trivial: distinct program the interpreter ran to a value, distinct API history. "
              "Cranelift IR: on every case the canonical text of the function cranelift.rs built (hook verif_clif_ir: blocks, opcodes, types, immediates, condition codes, offsets, intra-instruction data flow) is compared by digest with the translator model Model/ClifAst.lean; suite clifir prints the resolved form (which also names the variable an operand reads wherever the text shows it) in full for every distinct program of at most 64 slots and compares it line by line. ",
         trusted=EXEC_TRUST + ["Cranelift 0.127 IR semantics and its code generator (the theorems are about the IR-level model EngineSem)"],
     ),
